@@ -30,6 +30,7 @@ def plan(tier, seed):
     specs += shards("noisy_long", 600 if q else 30000, 150 if q else 3000, seed)
     specs += shards("noisy_reused", 2000 if q else 100000, 500 if q else 5000, seed)
     specs += shards("noisy_tables", 2500 if q else 100000, 500 if q else 5000, seed)
+    specs += shards("noisy_stretched", 2500 if q else 100000, 500 if q else 5000, seed)
     specs += shards("faulted", 3000 if q else 150000, 300 if q else 5000, seed)
     specs += [{"family": "corpus", "seed": seed, "n": 1}]
     return specs
@@ -140,13 +141,13 @@ def run_shard(spec, M):
     fam, seed = spec["family"], spec["seed"]
     if fam == "pairs":
         run_pairs(spec, M)
-    elif fam in ("noisy", "noisy_long", "noisy_tables", "noisy_reused"):
+    elif fam in ("noisy", "noisy_long", "noisy_tables", "noisy_reused", "noisy_stretched"):
         env = ReusedEnv(rng(seed, ID, "reuse", spec["shard"])) if fam == "noisy_reused" else None
         for i in range(spec["start"], spec["start"] + spec["n"]):
             r = rng(seed, ID, fam, i)
-            L = noisy.gen_tables(r) if fam == "noisy_tables" else noisy.gen(r, 30 if fam == "noisy" else 90)
+            L = noisy.gen_tables(r) if fam == "noisy_tables" else noisy.gen_stretched(r) if fam == "noisy_stretched" else noisy.gen(r, 30 if fam == "noisy" else 90)
             nl = r.choice(["\n", "\n", "\r\n"])
-            text = noisy.text_of(L, nl=nl, final=r.random() < 0.8 or noisy.POOL[L[-1][1]].text == "")
+            text = noisy.text_of(L, nl=nl, final=r.random() < 0.8 or noisy.pl_of(L[-1][1]).text == "")
             if env is not None:
                 check_noisy(L, text, M, {"kind": "shard", "spec": spec, "text": text}, env=env)
             else:
